@@ -231,8 +231,8 @@ func checkC12(c *core.Ctx) {
 	add("info chord list", []string{"info", "chord", "list"}, nil, false, true)
 	add("info key list", []string{"info", "key", "list"}, nil, false, true)
 	add("gen attr", []string{"gen", "attr", "-d", "30"}, nil, false, true)
-	add("midi port in", []string{"midi", "port", "in"}, nil, false, false)
-	add("midi port out", []string{"midi", "port", "out"}, nil, false, false)
+	add("midi port in", []string{"midi", "port", "in"}, nil, false, true)
+	add("midi port out", []string{"midi", "port", "out"}, nil, false, true)
 	for _, a := range [][2]string{{"Minor7", "C#"}, {"Augmented11", "Fb"}, {"NoSuch", "C"}} {
 		add("info attr describe/"+a[0], []string{"info", "attr", "describe", "-t", a[0], "-r", a[1]}, nil, false, true)
 	}
